@@ -113,6 +113,13 @@ def run(ctx):
     for sp in warm:
         sp['opts']['warmup'] = 'solve'
     specs += warm
+    # the order list of an existing book is replaced (created with the first orders only, refreshed afterwards)
+    fresh = gen.gen_many(ctx.seed, n // 3, dict(CFG, kinds={'OrderBook': 4, 'SimpleContract': 2, 'Storage': 1}), 'c20r_')
+    for sp in fresh:
+        for a in sp['assets']:
+            if a['kind'] == 'OrderBook' and len(a['orders']['start']) >= 2:
+                a['created_with'] = 1 + (len(a['name']) + len(a['orders']['start'])) % (len(a['orders']['start']) - 1)
+    specs += fresh
     specs = ctx.specs(specs)
     res = C.run_impl('reference', specs)
     parts = C.run_impl('assets', specs)
